@@ -8,7 +8,7 @@ from typing import Dict, List, Optional, Tuple
 from ..facts import emission_sites, registry_model, trivially_dead, value_set, conjuncts
 from ..fold import fold_in_fn
 from ..minieval import Evaluator, Obj, Unsupported
-from ..model import AnalysisError, Fn, ancestors, parent, text, walk_fn
+from ..model import AnalysisError, Undecided, Fn, ancestors, parent, text, walk_fn
 
 LIMITS = {"LINE_TOO_LONG": 80, "TOO_MANY_LINES": 25, "TOO_MANY_FUNCS": 5, "TOO_MANY_ARGS": 4, "TOO_MANY_VARS_FUNC": 5}
 
@@ -890,7 +890,7 @@ def rule_tabstops(run, prog):
                 if (adv != want or (use_spaces and env["result"] != " " * want) or (not use_spaces and env["result"] != "\t")) and bad is None:
                     bad = (col, new, want, env["result"])
     except Unsupported as e:
-        raise AnalysisError(f"tab branch of Lexer.pop outside the evaluable subset: {e}")
+        raise Undecided(f"tab branch of Lexer.pop outside the evaluable subset: {e}")
     run.ob("R-3.3", f"{pop.key}::tab-stop", bad is None,
            (f"a tab at column {bad[0]} moves to column {bad[1]} (expected {bad[0] + bad[2]}: tab stops every 4 columns) / "
             f"expands to {bad[3]!r}") if bad else "ok", tab_if, evaluations=n_eval)
